@@ -1038,6 +1038,67 @@ func r10_3(c *Ctx, lf *lexFacts, la *lexAnchors) {
 			ctors[f] = tokenCtorStart(f, la)
 		}
 	}
+	// delegating constructors: every return is a call of a constructor whose Start parameters are fed from this
+	// function's own parameters (or, for a constructor that reads the cursor, this function does not advance first)
+	for round := 0; round < 3; round++ {
+		for f, src := range ctors {
+			if src.ok {
+				continue
+			}
+			var out startSrc
+			good, any := true, false
+			allInstrs(f, func(_ *ssa.BasicBlock, _ int, in ssa.Instruction) {
+				ret, ok := in.(*ssa.Return)
+				if !ok {
+					return
+				}
+				call, ok := ret.Results[0].(*ssa.Call)
+				if !ok {
+					good = false
+					return
+				}
+				g := call.Call.StaticCallee()
+				gs, isCtor := ctors[g]
+				if !isCtor || !gs.ok || g == f {
+					good = false
+					return
+				}
+				any = true
+				if gs.fromFields {
+					if lf.mayAdvance(f) {
+						good = false
+					}
+					out.fromFields = true
+					return
+				}
+				for i, p := range g.Params {
+					if p != gs.lineParam && p != gs.colParam {
+						continue
+					}
+					fp, isP := call.Call.Args[i].(*ssa.Parameter)
+					if !isP {
+						good = false
+						continue
+					}
+					if p == gs.lineParam {
+						if out.lineParam != nil && out.lineParam != fp {
+							good = false
+						}
+						out.lineParam = fp
+					} else {
+						if out.colParam != nil && out.colParam != fp {
+							good = false
+						}
+						out.colParam = fp
+					}
+				}
+			})
+			if good && any && (out.fromFields != (out.lineParam != nil)) && (out.fromFields || out.colParam != nil) {
+				out.ok = true
+				ctors[f] = out
+			}
+		}
+	}
 	for _, cx := range lf.contextsOf(lf.base) {
 		n := 0
 		allInstrs(lf.base, func(_ *ssa.BasicBlock, _ int, in ssa.Instruction) {
@@ -1533,84 +1594,141 @@ func r10_7(c *Ctx, lf *lexFacts, la *lexAnchors, t *tables) {
 			})
 		}
 	}
-	// dispatcher paths
-	base := lf.base
-	ctorOf := func(call *ssa.Call) bool {
-		return namedIs(call.Type(), "token", "Token") && len(call.Call.Args) >= 3
+	// dispatcher paths: the walk of the dispatcher per first byte (lexpaths.go) gives, for every way a token is
+	// returned, the bytes advanced over and the token's literal; they must agree
+	outs, probs := c.lexOutcomes()
+	for _, p := range probs {
+		c.unres("dispatcher paths", lf.base.Pos(), "%s", p)
 	}
-	a := &parserAnchors{}
-	n := 0
-	complete := a.enumPaths(base.Blocks[0], func(_ []pathFact, blocks []*ssa.BasicBlock, last *ssa.BasicBlock) {
-		if _, ok := last.Instrs[len(last.Instrs)-1].(*ssa.Return); !ok {
-			return
-		}
-		var ctor *ssa.Call
-		advBefore, advAfter := 0, 0
-		var scanner *ssa.Call
-		scannerAdvAfter := 0
-		for _, b := range blocks {
-			for _, in := range b.Instrs {
-				call, ok := in.(*ssa.Call)
-				if !ok {
-					continue
-				}
-				cal := call.Call.StaticCallee()
-				switch {
-				case cal == lf.advance:
-					if ctor == nil {
-						advBefore++
-					} else {
-						advAfter++
-					}
-					if scanner != nil {
-						scannerAdvAfter++
-					}
-				case ctorOf(call):
-					ctor = call
-				case cal != nil && cal.Pkg == base.Pkg && cal.Signature.Recv() != nil && lf.mayAdvance(cal):
-					scanner = call
-					scannerAdvAfter = 0
+	if len(probs) > 0 {
+		return
+	}
+	isSlice := func(f *ssa.Function) bool {
+		hit := false
+		allInstrs(f, func(_ *ssa.BasicBlock, _ int, in ssa.Instruction) {
+			if sl, ok := in.(*ssa.Slice); ok {
+				if _, ok := isFieldLoad(sl.X, la.input); ok {
+					hit = true
 				}
 			}
-		}
-		if ctor == nil {
+		})
+		return hit
+	}
+	type verdict struct {
+		ok     bool
+		unres  bool
+		detail string
+		pos    token.Pos
+	}
+	verdicts := map[string]*verdict{}
+	var order []string
+	put := func(key string, v verdict) {
+		old, seen := verdicts[key]
+		if !seen {
+			verdicts[key] = &v
+			order = append(order, key)
 			return
 		}
-		n++
-		tt, _ := constInt64(unwrap(ctor.Call.Args[1]))
-		ttName := t.tc.name(tt)
-		if _, isConst := constInt64(unwrap(ctor.Call.Args[1])); !isConst {
-			ttName = "<computed>"
+		// one obligation per key: the worst case wins
+		if old.ok && !v.ok {
+			*old = v
 		}
-		key := fmt.Sprintf("dispatcher path #%d (%s)", n, ttName)
-		total := advBefore + advAfter
-		if scanner != nil {
-			sc := scanner.Call.StaticCallee()
-			if isSliceScannerCall(scanner, la) {
-				c.check(scannerAdvAfter == 0, key, ctor.Pos(), "slice scanner "+sc.Name()+" stops behind the token; no trailing advance", fmt.Sprintf("%d advance(s) after %s: the byte after the token is skipped", scannerAdvAfter, sc.Name()))
+	}
+	eofT, illT := t.tc.byName["EOF"], t.tc.byName["ILLEGAL"]
+	for _, o := range outs {
+		pos := lf.base.Pos()
+		if o.builder != nil {
+			pos = o.builder.Pos()
+		}
+		if o.site != nil {
+			pos = o.site.Pos()
+		}
+		lex := make([]byte, 0, len(o.consumed))
+		fixedLex := true
+		for _, bs := range o.consumed {
+			b, single := bs.single()
+			if !single {
+				fixedLex = false
+				break
+			}
+			lex = append(lex, b)
+		}
+		ttName := "<computed>"
+		if o.typOK {
+			ttName = t.tc.name(o.typ)
+		} else if o.ident {
+			ttName = "identifier/keyword"
+		} else if o.scanTyp {
+			ttName = "type from the scanner"
+		}
+		if o.scanner != nil {
+			key := fmt.Sprintf("dispatcher path: %s via %s", ttName, o.scanner.Name())
+			after := len(o.consumed) - o.advBeforeScan
+			if isSlice(o.scanner) {
+				put(key, verdict{ok: after == 0, pos: pos, detail: fmt.Sprintf("slice scanner %s stops behind the token; %d trailing advance(s)", o.scanner.Name(), after)})
+				if after != 0 {
+					verdicts[key].detail = fmt.Sprintf("%d advance(s) after %s: the byte after the token is skipped", after, o.scanner.Name())
+				}
 			} else {
-				c.check(scannerAdvAfter == 1 && advBefore == 0, key, ctor.Pos(), "delimited scanner "+sc.Name()+" stops on the closing delimiter; exactly one trailing advance", fmt.Sprintf("%d advance(s) after %s and %d before it: the closing delimiter is not consumed exactly once", scannerAdvAfter, sc.Name(), advBefore))
+				good := after == 1 && o.advBeforeScan == 0
+				d := "delimited scanner " + o.scanner.Name() + " stops on the closing delimiter; exactly one trailing advance"
+				if !good {
+					d = fmt.Sprintf("%d advance(s) after %s and %d before it: the closing delimiter is not consumed exactly once", after, o.scanner.Name(), o.advBeforeScan)
+				}
+				if o.typOK && o.typ == illT && after <= 1 && o.advBeforeScan == 0 {
+					// the unterminated case ends at the end of input: the trailing advance is a no-op there
+					good, d = true, "unterminated literal: reported at end of input"
+				}
+				put(key, verdict{ok: good, pos: pos, detail: d})
 			}
-			return
+			continue
 		}
-		if tt == t.tc.byName["EOF"] {
-			c.ok(key, ctor.Pos(), "end of input: nothing left to consume")
-			return
+		if o.typOK && o.typ == eofT {
+			put("dispatcher path: EOF", verdict{ok: len(o.consumed) <= 1, pos: pos, detail: "end of input: nothing left to consume"})
+			continue
 		}
-		// fixed lexeme: literal text is a constant or built from the consumed bytes; #advances = its length
-		litLen := literalLength(ctor.Call.Args[2])
-		if litLen < 0 {
-			c.unres(key, ctor.Pos(), "cannot determine the length of the token literal")
-			return
+		printable := fixedLex && len(lex) > 0
+		for _, b := range lex {
+			if b < 0x21 || b > 0x7e {
+				printable = false
+			}
 		}
-		c.check(total == litLen, key, ctor.Pos(), fmt.Sprintf("%d byte(s) consumed for a %d-byte literal", total, litLen), fmt.Sprintf("the path consumes %d byte(s) but the token literal has %d: a byte is skipped or lexed twice", total, litLen))
-	})
-	if !complete {
-		c.unres("dispatcher paths", base.Pos(), "too many paths")
+		key := fmt.Sprintf("dispatcher path: %s %q", ttName, string(lex))
+		if !printable {
+			key = fmt.Sprintf("dispatcher path: %s for any other byte", ttName)
+		}
+		if !fixedLex {
+			key = fmt.Sprintf("dispatcher path: %s starting with %q", ttName, string(rune(o.first)))
+		}
+		switch {
+		case !fixedLex:
+			put(key, verdict{unres: true, pos: pos, detail: "the token is built after advancing over a byte the dispatcher did not pin down"})
+		case o.litOK:
+			good := o.lit == string(lex)
+			d := fmt.Sprintf("%d byte(s) consumed, literal %q", len(lex), o.lit)
+			if !good {
+				d = fmt.Sprintf("the path consumes %q but the token literal is %q: a byte is skipped or lexed twice", string(lex), o.lit)
+			}
+			put(key, verdict{ok: good, pos: pos, detail: d})
+		case o.typOK && o.typ == illT && len(lex) == 1:
+			put(key, verdict{ok: true, pos: pos, detail: "error token for one unexpected byte; one byte consumed"})
+		default:
+			put(key, verdict{unres: true, pos: pos, detail: "cannot determine the token literal"})
+		}
+	}
+	for _, k := range order {
+		v := verdicts[k]
+		switch {
+		case v.unres:
+			c.unres(k, v.pos, "%s", v.detail)
+		case v.ok:
+			c.ok(k, v.pos, "%s", v.detail)
+		default:
+			c.bad(k, v.pos, "%s", v.detail)
+		}
 	}
 }
 
-// literalLength: length of a literal built from constants and string(byte) conversions; -1 if unknown.
 func literalLength(v ssa.Value) int {
 	switch x := v.(type) {
 	case *ssa.Const:
